@@ -598,6 +598,43 @@ def c16(run: Run):
         # over-long input in one go
         run.add("stream us=hdr ops=%s" % ";".join(["wa:" + (sized + rng.bytes(50)).hex(), "w:aa", "fin"]),
                 oracle=size_latch_oracle(m["out"]), tag="c16:overlong")
+    # (c) the moment the size is reached is visible when dict == declared size: from then on nothing is consumed
+    wraps = core.gen_material("lzmawrap", run.seed + 16, sizes(run.tier, 12, 60))
+    for m in wraps:
+        if len(m["out"]) <= m["dict"]:
+            continue
+        D = m["dict"]
+        data = lzma_header(m["lc"], m["lp"], m["pb"], D, D) + m["payload"][:700]
+        for rep in range(sizes(run.tier, 5, 12)):
+            ops, i = [], 0
+            step = rng.pick([1, 2, 3, 4, 5, 7])
+            while i < len(data):
+                n = step if rng.chance(3, 4) else rng.below(9) + 1
+                ops.append("wa:" + data[i:i + n].hex())
+                i += n
+            ops.append("fin")
+
+            def reached_oracle(res, meta, peak, D=D):
+                toks = [t for t in res.split(" ") if "=" not in t]
+                seen = False
+                for t in toks:
+                    if t.startswith("wa") and "@" in t:
+                        body, at = t[2:].split("@")
+                        if seen and body != "0":
+                            return "after the declared size was reached (sink holds %d bytes) a write still consumed input: %s" % (D, t)
+                        if at.isdigit() and int(at) >= D:
+                            seen = True
+                    if "panic" in t:
+                        return "panic"
+                return None
+            run.add("stream us=hdr ops=%s" % ";".join(ops), oracle=reached_oracle, tag="c16:size-visible", nontrivial=True)
+    # (d) UseProvided: 5-byte header, fragmented; the payload left in the staging buffer is corrupt
+    bads = [b for b in core.gen_material("lzmabad", run.seed + 16, sizes(run.tier, 150, 600)) if b["nsyms"] <= 2 and b["dict"] >= 4096]
+    for b in bads[:sizes(run.tier, 25, 120)]:
+        data = lzma_header(b["lc"], b["lp"], b["pb"], b["dict"], "skip") + b["payload"] + bytes(12)
+        k = rng.below(9) + 1
+        ops = ["wa:" + data[:k].hex(), "wa:" + data[k:].hex(), "w:0000", "f", "w:" + data.hex(), "fin"]
+        run.add("stream us=up:none ai=%d ops=%s" % (rng.below(2), ";".join(ops)), oracle=latch_oracle, tag="c16:corrupt-in-staging")
     # header-state errors
     run.add("stream us=hdr ops=w:%s;w:00;w:%s;fin" % ((bytes([230]) + bytes(30)).hex(), bytes(40).hex()),
             oracle=latch_oracle, tag="c16:bad-header")
